@@ -79,8 +79,8 @@ def s1_ownership(ctx):
         for name, m in sorted(c.methods.items()):
             if name.startswith('_') and name != '__init__':
                 continue
-            if m.is_property:
-                pass
+            if '@' in name:
+                continue        # a property setter is how an assignment `obj.cash = v` is carried out: the assignments are the writers (ownership rule above)
             try:
                 ps = summarise(ctx, m, policy=port_policy)
             except Undecided as e:
